@@ -274,6 +274,17 @@ func runC06(c *Ctx) {
 		}
 	}
 
+	// ---------- R06.12 a torn-down input whose output is gone is released
+	c.Rule("R06.12", "E1", "qtransform.reconcileTearingDown: once the mapped output is known to be absent (Teardown answered NotFound) or was destroyed, the reconcile does not end without RemoveFinalizer on the input — a nil return there is a successful reconcile nothing re-queues, and the input keeps the controller finalizer forever", 2)
+
+	if f := p.Method(pkgQTransform, "QController", "reconcileTearingDown"); c.NeedFunc("R06.12", f, "qtransform.reconcileTearingDown") {
+		rf := p.CallTo(gRemoveFinalizer)
+		c.NoReach("R06.12", "output NotFound on Teardown → RemoveFinalizer(input) before the reconcile ends", f,
+			p.EdgeSuccs(f, "true(call:"+gIsNotFound+"(call:"+gTeardown+"(*"), 1, IsReturn, CutSpec{Nodes: rf})
+		c.NoReach("R06.12", "Destroy(output)==nil → RemoveFinalizer(input) before the reconcile ends", f,
+			p.EdgeSuccs(f, factNil(gDestroy)), 1, IsReturn, CutSpec{Nodes: rf})
+	}
+
 	// ---------- error discipline (E8)
 	errDisciplineFor(c, "C06")
 
